@@ -27,6 +27,17 @@ inductive Val where
   | kw (s : String)
   | fib (f : FId)
   | pair (a b : Val)
+  | unit                -- the empty tuple ()
+  | single (a : Val)    -- the 1-tuple (a)
+  | estruct             -- the empty struct {}
+  deriving Repr, DecidableEq, Inhabited
+
+/-- signature shape of a fiber function: number of positional parameters (required + &opt), number of required ones,
+    and the trailing collector: 0 none, 1 `& rest` (tuple), 2 `&keys` (struct) -/
+structure Sig where
+  arity : Nat := 0
+  minArity : Nat := 0
+  rest : Nat := 0
   deriving Repr, DecidableEq, Inhabited
 
 inductive Atom where
@@ -62,6 +73,7 @@ inductive Tm where
   | ite (a b : Atom) (t e : Tm)                          -- (if (= a b) t e)
   | prim (l : Nat) (p : Prim) (k : Tm)
   | new (l : Nat) (body : Tm) (flags : List Nat) (k : Tm)  -- (fiber/new (fn [] body) flags)
+  | newp (l : Nat) (sig : Sig) (body : Tm) (flags : List Nat) (k : Tm)  -- (fiber/new (fn [params…] body) flags)
   | block (l : Nat) (t : Tm) (k : Tm)                    -- (def x (do t))
   | ccall (l : Nat) (t : Tm) (k : Tm)                    -- body run through janet_call (C re-entry)
   | each (l : Nat) (f : Atom) (body : Tm) (k : Tm)       -- (each x f body): next / in loop
@@ -106,6 +118,7 @@ structure Fiber where
   last : Val := .nil
   root : Bool := false          -- JANET_FIBER_FLAG_ROOT
   passThrough : Bool := false   -- this fiber's live activation sits in the child branch of janet_continue_no_check
+  sig : Sig := {}               -- parameters of the fiber function (bound at the first resume)
   deriving Repr, Inhabited
 
 structure DEnv where
@@ -159,6 +172,9 @@ def Val.descr : Val → String
   | .kw s => ":" ++ s
   | .fib _ => "<fiber>"
   | .pair _ _ => "<tuple>"
+  | .unit => "<tuple>"
+  | .single _ => "<tuple>"
+  | .estruct => "<struct>"
 
 def State.fiber? (s : State) (f : FId) : Option Fiber := s.fibers[f]?
 def State.setFiber (s : State) (f : FId) (x : Fiber) : State := { s with fibers := s.fibers.set f x }
@@ -282,6 +298,19 @@ def raise (s : State) (p : FId) (fp : Fiber) (rest : List FId) (sig : Nat) (v : 
 def panic (s : State) (p : FId) (fp : Fiber) (rest : List FId) (msg : String) : State :=
   raise s p fp rest sigError (.str msg)
 
+/-- Parameter slots of a fiber function at its first resume with value `v` (janet_fiber(func, …, min_arity, NULL) fills the
+    positional slots with nil and the collector with () / {}; then janet_continue_no_check, for a NEW fiber and a non-nil
+    `v`: `if (def->arity > 0) stack[0] = v; else if (VARARG) stack[0] = (v)`). -/
+def baseParams (sg : Sig) : List Val :=
+  List.replicate sg.arity Val.nil ++ (if sg.rest = 0 then [] else if sg.rest = 1 then [Val.unit] else [Val.estruct])
+
+def firstParams (sg : Sig) (v : Val) : List Val :=
+  let base := baseParams sg
+  if v = .nil then base
+  else if (if firstValueUsesArity then sg.arity else sg.minArity) > 0 then base.set 0 v
+  else if sg.rest ≠ 0 then base.set 0 (.single v)
+  else base
+
 /-- Enter run_vm on the (childless, resumable) fiber `f` with input `v`; `stk` = callers.
     run_vm prologue: a pending RESUME_SIGNAL makes it return that signal at once with `v` as payload. -/
 def startRun (s : State) (stk : List FId) (f : FId) (ff : Fiber) (v : Val) : State :=
@@ -289,7 +318,8 @@ def startRun (s : State) (stk : List FId) (f : FId) (ff : Fiber) (v : Val) : Sta
   | some sg => unwind (s.setFiber f { ff with pending := none, status := sg, last := v }) stk f sg v
   | none =>
     match ff.ctl with
-    | .run _ => { (s.setFiber f { ff with status := stAlive }) with stack := f :: stk }   -- new fiber: (fn [] …) ignores v
+    | .run _ =>   -- new fiber: the first value is bound to the function's parameters
+      { (s.setFiber f { ff with status := stAlive, env := ff.env ++ firstParams ff.sig v }) with stack := f :: stk }
     | .wait c => deliverValue { s with stack := f :: stk } f { ff with status := stAlive } c v
 
 /-- janet_continue_no_check(f, v), callers `stk` (the resumer is the head). -/
@@ -364,6 +394,9 @@ def execPrim (s : State) (p : FId) (fp : Fiber) (rest : List FId) (l : Nat) (pr 
     | .str st => bind s fp (match st.toList[0]? with | some c => .int c.toNat | none => .nil)
     | .kw st => bind s fp (match st.toList[0]? with | some c => .int c.toNat | none => .nil)
     | .fib g => bind s fp (match s.fiber? g with | some fg => fg.last | none => .nil)   -- janet_getindex: fiber[0] = last_value
+    | .single x => bind s fp x
+    | .unit => bind s fp .nil
+    | .estruct => bind s fp .nil
     | v => panic s p fp rest ("expected string, symbol, keyword, array, tuple, table, struct or buffer, got " ++ v.descr)
   | .snd a =>
     match ev a with
@@ -371,6 +404,9 @@ def execPrim (s : State) (p : FId) (fp : Fiber) (rest : List FId) (l : Nat) (pr 
     | .str st => bind s fp (match st.toList[1]? with | some c => .int c.toNat | none => .nil)
     | .kw st => bind s fp (match st.toList[1]? with | some c => .int c.toNat | none => .nil)
     | .fib _ => bind s fp .nil                                                           -- fiber[i > 0] = nil
+    | .single _ => bind s fp .nil
+    | .unit => bind s fp .nil
+    | .estruct => bind s fp .nil
     | v => panic s p fp rest ("expected string, symbol, keyword, array, tuple, table, struct or buffer, got " ++ v.descr)
   | .status f =>
     match ev f with
@@ -460,10 +496,10 @@ def newEnvStep (p : FId) (acc : State × Fiber × Option Nat) (c : Nat) : State 
     ({ r.1 with denvs := r.1.denvs ++ [{ proto := some r.2.2, tbl := [] }] }, r.2.1, some e')
   else acc
 
-def execNew (s : State) (p : FId) (fp : Fiber) (l : Nat) (body : Tm) (flags : List Nat) (k : Tm) : State :=
+def execNew (s : State) (p : FId) (fp : Fiber) (l : Nat) (body : Tm) (flags : List Nat) (k : Tm) (sg : Sig := {}) : State :=
   let g := s.fibers.length
   let r := flags.foldl (newEnvStep p) (s, fp, none)
-  let nf : Fiber := { status := stNew, mask := maskOfFlags flags, ctl := .run body, env := r.2.1.env, denv := r.2.2 }
+  let nf : Fiber := { status := stNew, mask := maskOfFlags flags, ctl := .run body, env := r.2.1.env, denv := r.2.2, sig := sg }
   let s' : State := { r.1 with fibers := r.1.fibers ++ [nf] }
   deliverValue s' p r.2.1 (.bindK l k false) (.fib g)
 
@@ -511,6 +547,10 @@ def step (s : State) : State :=
             s.setFiber p { fp with ctl := .run (if evalAtom s fp.env a = evalAtom s fp.env b then t else e) }
           | .prim l pr k => execPrim s p fp rest l pr k
           | .new l body flags k => execNew s p fp l body flags k
+          | .newp l sg body flags k =>
+            -- cfun_fiber_new: `if (func->def->min_arity > 1) janet_panicf(...)`
+            if sg.minArity > newMaxMinArity then panic s p fp rest "fiber function must accept 0 or 1 arguments"
+            else execNew s p fp l body flags k sg
           | .block l t k => s.setFiber p { fp with kont := .blk fp.env l k :: fp.kont, ctl := .run t }
           | .ccall l t k => s.setFiber p { fp with kont := .cc fp.env l k :: fp.kont, ctl := .run t }
           | .each l f body k => execLoopNext s p fp rest l f body k
@@ -524,10 +564,12 @@ def run : Nat → State → State
 
 /-- Fiber 0 = the harness' real main fiber (root task, alive, inert); fiber 1 = the tree's main fiber, created
     `(fiber/new (fn [] t) flags)` and resumed once by fiber 0's C-level caller. -/
-def init (t : Tm) (flags : List Nat) : State :=
+def initp (t : Tm) (flags : List Nat) (sg : Sig) (v : Val) : State :=
   let main : Fiber := { status := stAlive, mask := defaultMask, ctl := .wait (.bindK 0 (.ret (.lit .nil)) false), root := true, denv := some 0 }
-  let top : Fiber := { status := stNew, mask := maskOfFlags flags, ctl := .run t }
+  let top : Fiber := { status := stNew, mask := maskOfFlags flags, ctl := .run t, sig := sg }
   let s : State := { fibers := [main, top], denvs := [{ proto := none, tbl := [] }] }
-  startRun s [] 1 top .nil
+  startRun s [] 1 top v
+
+def init (t : Tm) (flags : List Nat) : State := initp t flags {} .nil
 
 end JanetModel.Fiber
